@@ -177,7 +177,7 @@ func init() {
 			"transport modes {normal, typesHash tampered, body truncated at k, body failing at k}; oracle: common names equal the exporter's content, names unknown to the exporter get 404 and keep their sentinel entries, tampered hash gets 400 and nothing is imported, " +
 			"truncated/failing bodies import a subset without panic; types hash: child processes register seeded permutations/multisets of a pool of 12 types (equal sets => equal hash in every process, set plus one type => different hash); " +
 			"a genuinely separate exporter process with a different type set serves over stdin/stdout and nothing may be imported; distinct_nontrivial = distinct (names on both sides, mode, backend pairing) transfer cells + distinct type sets hashed",
-		Required:    []string{"transfers.normal", "transfers.tampered", "transfers.truncated", "transfers.failbody", "status.404", "status.400", "status.200", "hash.processes", "hash.sets_compared", "hash.added_type_differs", "hash.variadic_groupings", "twoprocess.transfers", "latereg.equal_hash_imports", "latereg.stale_hash_requests", "entries.imported", "transfers.hostile_names", "transfers.fault_on_one_cache_only"},
+		Required:    []string{"transfers.normal", "transfers.tampered", "transfers.truncated", "transfers.failbody", "status.404", "status.400", "status.200", "hash.processes", "hash.sets_compared", "hash.added_type_differs", "hash.variadic_groupings", "twoprocess.transfers", "latereg.equal_hash_imports", "latereg.stale_hash_requests", "entries.imported", "transfers.hostile_names", "transfers.fault_on_one_cache_only", "names_registered_twice", "hexhash.digit_only_hashes_transferred"},
 		Assumptions: []string{"GobTypesHashReset is a test helper and is never called; the registered set is what a fresh process registered"},
 		Timeout:     func(string) time.Duration { return 45 * time.Minute },
 	})
@@ -218,6 +218,9 @@ func runC14(b *Batch) {
 			continue
 		}
 		c14LateRegister(b, n+nh+1+i)
+	}
+	if b.Index < b.Pick(2, 8) && !b.Skip(n+nh+500) {
+		c14HexHash(b, n+nh+500)
 	}
 }
 
@@ -260,6 +263,53 @@ func lateRegChild(a []string) {
 	for i, call := range strings.Split(a[0], ",") {
 		registerSpec(call)
 		step(fmt.Sprintf("after-registration-%d(%s)", i+1, call))
+	}
+}
+
+// hexHashChild: vh hexhash <seed> - registers synthetic struct types one at a time until the types hash, written in base 16,
+// happens to contain decimal digits only (about one type set in 1850), then transfers a cache in-process: equal hashes,
+// so everything must arrive. Hash values are data like any other; a wire format must not misread particular ones.
+func hexHashChild(a []string) {
+	seed, _ := strconv.ParseInt(a[0], 10, 64)
+	rng := rand.New(rand.NewSource(seed))
+	found := false
+	for i := 0; i < 40000 && !found; i++ {
+		fields := []reflect.StructField{
+			{Name: fmt.Sprintf("F%d", rng.Intn(1<<30)), Type: reflect.TypeOf(0)},
+			{Name: fmt.Sprintf("G%d", i), Type: reflect.TypeOf("")},
+		}
+		cache.GobRegister(reflect.New(reflect.StructOf(fields)).Elem().Interface())
+		hx := strconv.FormatUint(cache.GobTypesHash(), 16)
+		found = strings.IndexFunc(hx, func(r rune) bool { return r < '0' || r > '9' }) < 0
+	}
+	if !found {
+		fmt.Println("NOTFOUND")
+		return
+	}
+	src := cache.NewShardedMap()
+	for i := 0; i < 7; i++ {
+		_ = src.Write(bg, []byte(fmt.Sprintf("remote-%d", i)), fmt.Sprintf("value-%d", i))
+	}
+	exp := &cache.HTTPTransfer{}
+	exp.AddCache("shared", src)
+	imp := &cache.HTTPTransfer{Transport: &c14Transport{handler: exp.Export(), statuses: map[string]int{}, bodyLens: map[string]int{}}}
+	dst := cache.NewShardedMap()
+	imp.AddCache("shared", dst)
+	err := imp.Import(bg, "http://exporter.invalid/export")
+	fmt.Printf("HASH %x imported=%d err=%v\n", cache.GobTypesHash(), dst.Len(), err)
+}
+
+func c14HexHash(b *Batch, idx int) {
+	out, err := c14RunSelf("hexhash", strconv.FormatInt(b.CaseSeed(idx)&0xffffff, 10))
+	b.R.Eval()
+	if err != nil || !strings.HasPrefix(out, "HASH ") {
+		b.R.Inconcl("C14 digits-only hash not found / child failed: " + trunc(out, 80))
+		return
+	}
+	b.R.Count("hexhash.digit_only_hashes_transferred", 1)
+	b.R.Nontrivial("hexhash/" + strings.Fields(out)[1])
+	if !strings.Contains(out, "imported=7 err=<nil>") {
+		b.R.Violate(b, idx, "C14:equal-hash-refused-for-particular-hash-value", "exporter and importer share one type set (same process) whose hash is "+out+": want imported=7", map[string]interface{}{"child": out})
 	}
 }
 
@@ -315,6 +365,7 @@ func c14Transfer(b *Batch, idx int) {
 		src, dst Backend
 	}
 	sides := map[string]*side{}
+	var replaced []Backend
 	var cell []string
 	for _, nm := range names {
 		onExp, onImp := rng.Intn(3) != 0, rng.Intn(3) != 0
@@ -344,6 +395,13 @@ func c14Transfer(b *Batch, idx int) {
 			if !onExp {
 				s.dst.Write(bg, []byte("sentinel-"+nm), "sentinel")
 			}
+			if rng.Intn(4) == 0 {
+				// the name was registered before with another cache: the later registration replaces it
+				old := newBackend(dk, cache.Config{TimeToLive: cache.UnlimitedTTL})
+				imp.AddCache(nm, old.WDR())
+				replaced = append(replaced, old)
+				b.R.Count("names_registered_twice", 1)
+			}
 			imp.AddCache(nm, s.dst.WDR())
 		}
 		sides[nm] = s
@@ -358,6 +416,11 @@ func c14Transfer(b *Batch, idx int) {
 	imp.Transport = tr
 	err := imp.Import(bg, "http://exporter.invalid/export")
 	b.R.Eval()
+	for _, old := range replaced {
+		if old.Len() != 0 {
+			b.R.Violate(b, idx, "C14:import-filled-replaced-cache", fmt.Sprintf("Import put %d entries into a cache whose name had been re-registered with another cache", old.Len()), map[string]interface{}{"cell": cell})
+		}
+	}
 	b.R.Nontrivial(strings.Join(cell, ",") + "/" + mode)
 	switch mode {
 	case "":
